@@ -14,7 +14,9 @@ class ELUPlus(nn.Module):
         self.elu = nn.ELU()
 
     def forward(self, x):
-        return self.elu(x) + 1.
+        # elu(x) + 1 is exp(x) for x <= 0; (exp(x) - 1) + 1 rounds to exactly zero below
+        # about -37 (a zero derivative of the monotonic transform, log-abs-det -inf).
+        return torch.where(x > 0, x + 1., torch.exp(torch.clamp(x, max=0.)))
 
 
 class IntegrandNet(nn.Module):
